@@ -37,7 +37,9 @@ def ErrVal.closeable : ErrVal → Bool
   | _ => false
 
 /-- What the request modifier does on this exchange. -/
-inductive ReqB | pass | err (v : ErrVal) | skip | errSkip (v : ErrVal) | hijack
+inductive ReqB
+  | pass | err (v : ErrVal) | skip | errSkip (v : ErrVal) | hijack
+  | insecure   -- returns nil after calling the public `Session.MarkInsecure()` (any code holding the session can)
   deriving Repr, DecidableEq
 /-- What the response modifier does. -/
 inductive ResB | pass | err (v : ErrVal) | hijack
@@ -67,6 +69,8 @@ structure St where
   sessTls : Bool := false     -- `session.conn` (what a hijacker is handed) is the decrypted connection
   tlsId : Nat := 0            -- which TLS session `conn` is: 0 none, 1 the listener's, `j + 2` the one
                               -- negotiated inside the tunnel of the CONNECT with index `j`
+  stored : Nat := 0           -- how many values modifiers have put into the session's value map so far (the
+                              -- recording request modifier stores one per request it sees); `setConn` keeps the map
   deriving Repr, DecidableEq
 
 inductive Ev
@@ -107,7 +111,11 @@ def pre (s : St) (i c : Nat) (rq : ReqB) : List Ev :=
 connection of the innermost tunnel. -/
 def hijTid (s : St) : Nat := if s.sessTls then s.tlsId else 0
 
-def stAfter (s : St) : St := { s with secure := s.secure || s.connTls }
+def stAfter (s : St) : St := { s with secure := s.secure || s.connTls, stored := s.stored + 1 }
+
+/-- What a request modifier's use of the public session API leaves behind: `MarkInsecure()` clears
+the flag - until `handle` looks at the connection it is given for the next request. -/
+def afterReq (rq : ReqB) (s : St) : St := if rq = .insecure then { s with secure := false } else s
 
 /-- One call of `handle` for a non-CONNECT request. `shutdown` = `p.Closing()` at the close decision. -/
 def handleX (shutdown : Bool) (s : St) (i c : Nat) (reqClose : Bool) (rq : ReqB) (rs : ResB) (org : Org) :
@@ -126,7 +134,7 @@ def handleX (shutdown : Bool) (s : St) (i c : Nat) (reqClose : Bool) (rq : ReqB)
   if rs = .hijack then (p ++ up ++ post ++ [.hijacked i s.sessTls (hijTid s), .unlink c], .hijack) else
   let closing := reqClose || resClose || shutdown
   (p ++ up ++ post ++ [.write i status closing complete, .unlink c],
-    if closing || !complete then .close else .again s')
+    if closing || !complete then .close else .again (afterReq rq s'))
 
 /-- CONNECT with MITM configured. -/
 def handleMitm (s : St) (i c : Nat) (tls : Bool) (rq : ReqB) (rs : ResB) : List Ev × Next :=
@@ -140,7 +148,8 @@ def handleMitm (s : St) (i c : Nat) (tls : Bool) (rq : ReqB) (rs : ResB) : List 
   (p ++ post ++ [.write i 200 false true],
     -- a handshake inside the tunnel is a TLS session of its own (`tls.Server` over whatever `conn` is),
     -- and from here on `handle` is given that connection
-    .again (if tls then { secure := true, connTls := true, sessTls := true, tlsId := i + 2 } else s'))
+    .again (if tls then { secure := true, connTls := true, sessTls := true, tlsId := i + 2, stored := s'.stored }
+            else afterReq rq s'))
 
 /-- CONNECT with MITM configured whose TLS handshake fails: `tlsconn.Handshake()` returns an error,
 the callback runs, `handle` returns that error - which is not closeable, so the serving loop (of the
@@ -154,7 +163,7 @@ def handleMitmFail (s : St) (i c : Nat) (rq : ReqB) (rs : ResB) : List Ev × Nex
   if rq = .hijack then (p ++ [.hijacked i s.sessTls (hijTid s), .unlink c], .hijack) else
   let post := [Ev.resmod i c 200] ++ (if rsErr rs then [Ev.warnRes i] else [])
   if rs = .hijack then (p ++ post ++ [.hijacked i s.sessTls (hijTid s), .unlink c], .hijack) else
-  (p ++ post ++ [.write i 200 false true, .unlink c], .again s')
+  (p ++ post ++ [.write i 200 false true, .unlink c], .again (afterReq rq s'))
 
 /-- CONNECT without MITM. -/
 def handleBlind (s : St) (i c : Nat) (dialOk : Bool) (rq : ReqB) (rs : ResB) : List Ev × Next :=
@@ -167,7 +176,7 @@ def handleBlind (s : St) (i c : Nat) (dialOk : Bool) (rq : ReqB) (rs : ResB) : L
   if rs = .hijack then (p ++ d ++ post ++ [.hijacked i s.sessTls (hijTid s), .unlink c], .hijack) else
   -- `res.ContentLength = -1`: net/http marks such a response `Connection: close`
   if dialOk then (p ++ d ++ post ++ [.write i 200 true true, .tunnel i, .unlink c], .close)
-  else (p ++ d ++ post ++ [.write i 502 false true, .unlink c], .again s')
+  else (p ++ d ++ post ++ [.write i 502 false true, .unlink c], .again (afterReq rq s'))
 
 def handleItem (shutdown : Bool) (s : St) (i c : Nat) : Item → List Ev × Next
   | .x rc rq rs org => handleX shutdown s i c rc rq rs org
